@@ -184,9 +184,43 @@ def _lattice_intervals(rng, n, start):
     return out
 
 
+_SHARPS = ["C", "C#", "D", "D#", "E", "F", "F#", "G", "G#", "A", "A#", "B"]
+# chord tones of some shorthands as (degree, semitones above the root)
+_TONES = {"maj": [("1", 0), ("3", 4), ("5", 7)], "min": [("1", 0), ("b3", 3), ("5", 7)],
+          "7": [("1", 0), ("3", 4), ("5", 7), ("b7", 10)], "maj7": [("1", 0), ("3", 4), ("5", 7), ("7", 11)],
+          "min7": [("1", 0), ("b3", 3), ("5", 7), ("b7", 10)], "dim": [("1", 0), ("b3", 3), ("b5", 6)],
+          "aug": [("1", 0), ("3", 4), ("#5", 8)], "sus4": [("1", 0), ("4", 5), ("5", 7)]}
+
+
+def pedal_pair(rng):
+    """two neighbouring chords of the same shape over ONE sounding bass note (a pedal): the root moves by exactly the
+    interval by which the bass degree moves the other way, e.g. C:maj/5 -> G:maj, A:min/b3 -> C:min. They are different
+    chords in every key; which of root / bass changed, and by how much, depends on the key they are spelled in"""
+    q = rng.choice(sorted(_TONES))
+    (d1, i1), (d2, i2) = rng.sample(_TONES[q], 2)
+    p = rng.randrange(12)
+    lab = lambda d, i: "%s:%s" % (_SHARPS[(p - i) % 12], q) + ("" if d == "1" else "/" + d)
+    return lab(d1, i1), lab(d2, i2)
+
+
 def gen_chord_evaluate(rng, tier, shard, nshards, boost):
     n = (1200 if tier == "quick" else 24000) * boost // nshards
     for _ in range(n):
+        if rng.random() < 0.25:
+            # pedal-bass neighbours on one side, the same chords in root position / differently cut on the other
+            nr = rng.randint(2, 5)
+            ri = _lattice_intervals(rng, nr, 0)
+            rl = [cl.draw_pair(rng)[0] for _ in range(nr)]
+            j = rng.randrange(nr - 1)
+            rl[j], rl[j + 1] = pedal_pair(rng)
+            ei = _lattice_intervals(rng, rng.randint(1, 5), rng.choice([0, 0, 8]))
+            el = [rng.choice([rl[min(k, nr - 1)], rl[min(k, nr - 1)].split("/")[0], cl.draw_pair(rng)[1]])
+                  for k in range(len(ei))]
+            if rng.random() < 0.5:
+                ri, rl, ei, el = ei, el, ri, rl
+            variants = [[rng.randrange(12), rng.randrange(3), rng.randrange(3)] for _ in range(4)] + [[0, 1, 2]]
+            yield {"ref_intervals": ri, "ref_labels": rl, "est_intervals": ei, "est_labels": el, "variants": variants}
+            continue
         nr, ne = rng.randint(1, 6), rng.randint(1, 6)
         ri = _lattice_intervals(rng, nr, rng.choice([0, 0, 16]))
         ei = _lattice_intervals(rng, ne, rng.choice([0, 0, 8, 40]))
